@@ -136,7 +136,7 @@ def check_interp(case, stats):
 
 def templates_for(h):
     p = "<" + h + ">"
-    out = [p, "x" + p + "y" + p, "<" + p + ">", "<other>", "plain " + h, h + "> <" + h, "<" + h.swapcase() + ">", "< " + h + " >", p + p, p + p + p]
+    out = [p, "x" + p + "y" + p, "<" + p + ">", "<other>", "plain " + h, h + "> <" + h, "<" + h.swapcase() + ">", "< " + h + " >", p + p, p + p + p, (p + " ") * 9, (p + "\n") * 20 + "end"]
     # a placeholder that overlaps itself (a proper suffix equal to a prefix, e.g. '<><>' or '<x><x>'): occurrences are taken left to right, never overlapping
     for k in range(1, len(p)):
         if p[k:] == p[:len(p) - k]:
